@@ -501,6 +501,16 @@ class Point:
             for part, imag in ((cr, False), (ci, True)):
                 if part == 0: continue
                 k = part * DEN
+                if k.denominator != 1 and mk == ():
+                    # exp of a pure number whose denominator the common base cannot express (a margin such as 1e-6): a transcendental constant of its own, keyed by the number
+                    key_ = ('expconst', part, imag)
+                    if key_ not in self.expbase:
+                        if imag:
+                            w_ = (self.rng.randrange(2, P), self.rng.randrange(2, P)); self.expbase[key_] = c_mul(w_, c_inv((w_[0], (-w_[1]) % P)))
+                        else:
+                            a_ = self.rng.randrange(2, P); self.expbase[key_] = (a_ * a_ % P, 0)
+                    r = c_mul(r, self.expbase[key_])
+                    continue
                 if k.denominator != 1:
                     raise AnalysisError(f'exp coefficient {part} not a multiple of 1/{DEN}')
                 r = c_mul(r, c_pow(self.exp_base(mk, imag), int(k)))
